@@ -37,6 +37,9 @@ type RatingCase struct {
 	Flip  []string `json:"flip"`
 	Used  uint64   `json:"used"`
 	Money uint64   `json:"money"`
+	// Pause: milliseconds of silence on the (kept) connection before the request is sent: a peer may hold its connection
+	// open and stay quiet for a while (this client sends no watchdog requests)
+	Pause int `json:"pause"`
 }
 
 var subNum = map[string]charging_datatype.RequestSubType{
@@ -203,7 +206,10 @@ func RunRating(env *Env, prefix, in, out string) error {
 		}
 		env.ResetState(0)
 		env.PutAccount(supi, 1, "1000", strings.Join(c.Cost, ""))
-		if i%3 != 2 {
+		if c.Pause > 0 {
+			time.Sleep(time.Duration(c.Pause) * time.Millisecond)
+		}
+		if i%3 != 2 && c.Pause == 0 {
 			who, rg := "imsi-"+prefix+"99", uint32(1)
 			if i%3 == 1 {
 				who, rg = supi, 77
